@@ -133,6 +133,12 @@ Theorem clean_dir_complete : forall excl_name excl_path cancelled fuel s p,
 Proof. by_rm clean_dir_complete_l. Qed.
 Print Assumptions clean_dir_complete.
 
+(* the exclusion predicates of the theorems are FUNCTIONS of the patterns of the call; that is faithful only if the code
+   compiles the patterns of each call afresh (generated fact: no package-level state / memo in exclusion.go) *)
+Theorem generated_exclusion_facts : ex_ok Gen.ex = true.
+Proof. vm_compute; reflexivity. Qed.
+Print Assumptions generated_exclusion_facts.
+
 (* ---- exclusions (the rule of the D11 repair: caller's path for the top entry, entry name below it) ----
    [protected]: p itself when the caller's path is excluded; below p, an entry whose own name is excluded or that lies
    below a directory whose name is excluded.  Such an entry survives unchanged and all its ancestors remain directories,
